@@ -50,6 +50,7 @@ type DMsg struct {
 	Fill  uint64 `json:"fill"`
 	API   string `json:"api"` // WriteMessage | NextWriter
 	Parts []int  `json:"parts,omitempty"`
+	Wdl   int    `json:"wdl,omitempty"` // the data writer calls SetWriteDeadline before this message: 1 an hour ahead, 2 the zero time (no deadline)
 }
 
 type Sender struct {
@@ -245,6 +246,12 @@ func runCase(c Case) (st stats, err error) {
 		p := rtmpx.Fill(m.Size, m.Fill|1)
 		after := atomic.LoadInt32(&closeSent) == 1
 		var e error
+		switch m.Wdl {
+		case 1:
+			conn.SetWriteDeadline(time.Now().Add(time.Hour))
+		case 2:
+			conn.SetWriteDeadline(time.Time{})
+		}
 		if m.Type >= 8 {
 			// the writer goroutine sends a ping/pong itself, through the message API
 			if m.API == "NextWriter" {
@@ -548,6 +555,7 @@ func genCase(t *rapid.T) Case {
 		if rapid.IntRange(0, 7).Draw(t, "ctlmsg") == 0 {
 			m.Type, m.Size, m.Parts = rapid.SampledFrom([]int{9, 10}).Draw(t, "ctltype"), rapid.SampledFrom([]int{0, 5, min(125, wb)}).Draw(t, "ctlsize"), nil // (a control frame sent through the message API has to fit the write buffer)
 		}
+		m.Wdl = rapid.SampledFrom([]int{0, 0, 1, 1, 2}).Draw(t, "wdl")
 		c.Msgs = append(c.Msgs, m)
 	}
 	c.Compress = rapid.IntRange(0, 2).Draw(t, "compress") == 0
@@ -586,7 +594,7 @@ func genCase(t *rapid.T) Case {
 
 var recHist = ev.New(prop, "histories",
 	"rapid-generated histories: one data writer (1-8 messages, sizes around 0/buf/2buf/5buf through WriteMessage or NextWriter with drawn partitions, so server frames reach the transport in two write calls), "+
-		"a reader goroutine answering the peer's pings, 0-4 control senders (pings/pongs, optionally one Close at a drawn position), optional Conn.Close() after a drawn number of transport writes; the transport script "+
+		"the writer sets or clears its write deadline before some messages (SetWriteDeadline is one of the writer's methods), a reader goroutine answering the peer's pings, 0-4 control senders (pings/pongs, optionally one Close at a drawn position), optional Conn.Close() after a drawn number of transport writes; the transport script "+
 		"releases control senders and yields while a write call is in progress, or fails a call; oracle: transport never entered concurrently, bytes parse as whole well-formed frames, data messages intact and in order, "+
 		"nothing after a Close frame, writes after close-sent return ErrCloseSent, race detector silent; non-trivial = senders released during a write of a history with two-part frames, or a Close frame/Close()/failure").
 	Require("two-part+released", "close-frame", "conn-close", "transport-failure", "client", "server")
